@@ -9,8 +9,8 @@ PATCH="$(readlink -f "$1")"; CHECK="$2"; TIER="${3:-quick}"; SEED="${4:-20260927
 ROOT="${MUTROOT:-/tmp/mutcheck}"
 mkdir -p "$ROOT/root/evidence" "$ROOT/root/replays"
 if [ ! -d "$ROOT/wt" ]; then git -C /repo worktree add -q --detach "$ROOT/wt" HEAD || exit 2; fi
-git -C "$ROOT/wt" checkout -q --detach "$(git -C /repo rev-parse HEAD)" && git -C "$ROOT/wt" checkout -q -- . && git -C "$ROOT/wt" clean -fdq -e target
-if [ "$PATCH" != "/dev/null" ]; then git -C "$ROOT/wt" apply "$PATCH" 2>/dev/null || git -C "$ROOT/wt" apply --3way "$PATCH" || { echo "HARNESS-ERROR: patch does not apply"; exit 2; }; fi
+git -C "$ROOT/wt" reset -q --hard >/dev/null 2>&1; git -C "$ROOT/wt" checkout -q --detach "$(git -C /repo rev-parse HEAD)" && git -C "$ROOT/wt" reset -q --hard && git -C "$ROOT/wt" clean -fdq -e target
+if [ "$PATCH" != "/dev/null" ]; then git -C "$ROOT/wt" apply "$PATCH" 2>/dev/null || (git -C "$ROOT/wt" apply --3way "$PATCH" && git -C "$ROOT/wt" reset -q) || { echo "HARNESS-ERROR: patch does not apply"; exit 2; }; fi
 rsync -a --delete --exclude target --exclude '.build-log.*' /verif/sim/ "$ROOT/sim/"
 cp /verif/known_findings.json "$ROOT/root/" 2>/dev/null
 mkdir -p "$ROOT/sim/target"
